@@ -284,7 +284,7 @@ func (g *Gen) Device(t []*GVsys, nedits int) ([]*GVsys, []string) {
 				}
 			}
 		}
-		switch g.Rng.Intn(16) {
+		switch g.Rng.Intn(17) {
 		case 0: // rule missing on device
 			if len(v.Rules) > 0 {
 				i := g.Rng.Intn(len(v.Rules))
@@ -428,6 +428,30 @@ func (g *Gen) Device(t []*GVsys, nedits int) ([]*GVsys, []string) {
 					ops = append(ops, "group-suffix-clash")
 				}
 			}
+		case 16: // address value / service port one character off
+			if len(v.Addr) > 0 && g.Rng.Intn(3) != 0 {
+				i := g.Rng.Intn(len(v.Addr))
+				a := v.Addr[i][1]
+				if j := strings.Index(a, "/"); j >= 0 {
+					host := a[:j]
+					k := strings.LastIndex(host, ".")
+					var n int
+					fmt.Sscanf(host[k+1:], "%d", &n)
+					if a[j:] == "/32" && n > 0 {
+						v.Addr[i][1] = fmt.Sprintf("%s.%d/32", host[:k], nearInt(g.Rng, n, 254))
+					} else {
+						v.Addr[i][1] = host + []string{"/25", "/26", "/28"}[g.Rng.Intn(3)]
+					}
+					ops = append(ops, "address-near-value")
+				}
+			} else if len(v.Services) > 0 {
+				i := g.Rng.Intn(len(v.Services))
+				var port int
+				if _, err := fmt.Sscanf(v.Services[i][2], "%d", &port); err == nil {
+					v.Services[i][2] = fmt.Sprint(nearInt(g.Rng, port, 65535))
+					ops = append(ops, "service-near-port")
+				}
+			}
 		case 14: // device address object carries an unknown attribute
 			if len(v.Addr) > 0 {
 				v.AddrX[v.Addr[g.Rng.Intn(len(v.Addr))][0]] = "<description>set by admin</description>"
@@ -471,4 +495,23 @@ func hasDupGroup(v *GVsys) bool {
 		seen[g[0]] = true
 	}
 	return false
+}
+
+func nearInt(rng *rand.Rand, n, max int) int {
+	var c []int
+	for d := 0; d < 10; d++ {
+		if x := n/10*10 + d; x != n && x >= 1 && x <= max {
+			c = append(c, x)
+		}
+		if x := n*10 + d; x >= 1 && x <= max {
+			c = append(c, x)
+		}
+	}
+	if n >= 10 {
+		c = append(c, n/10)
+	}
+	if len(c) == 0 {
+		return n
+	}
+	return c[rng.Intn(len(c))]
 }
